@@ -58,8 +58,18 @@ static void installCrashNote(const std::string &path) {
 #ifdef VERIF_SANITIZER
     __sanitizer_set_death_callback(dumpCurrent);
 #endif
-    for (int s : {SIGSEGV, SIGBUS, SIGABRT, SIGFPE, SIGILL, SIGALRM})
-        signal(s, onSignal);
+    // the handlers run on their own stack: a stack overflow still leaves its note
+    static char altstack[1 << 16];
+    stack_t ss{};
+    ss.ss_sp = altstack;
+    ss.ss_size = sizeof altstack;
+    sigaltstack(&ss, nullptr);
+    for (int s : {SIGSEGV, SIGBUS, SIGABRT, SIGFPE, SIGILL, SIGALRM}) {
+        struct sigaction sa{};
+        sa.sa_handler = onSignal;
+        sa.sa_flags = SA_ONSTACK;
+        sigaction(s, &sa, nullptr);
+    }
 }
 // every execution is also given a deadline: a call that never returns (e.g. on a heap
 // corrupted by an out-of-bounds write) ends the harness with the crash note
